@@ -6,6 +6,8 @@ package harness
 import (
 	"bytes"
 	"fmt"
+	"github.com/ipld/go-ipld-prime/traversal"
+	"github.com/ipld/go-ipld-prime/traversal/selector"
 	"io"
 	"sort"
 	"testing"
@@ -51,6 +53,25 @@ func c12ReadFaulty(fc *fileCase, mode string) (got []byte, err error, perr any) 
 		}
 		if mode == "AsBytes" {
 			got, err = rn.AsBytes()
+			return
+		}
+		if mode == "matcher" {
+			// the library's own consumer: a walk that matches the (reified) file and hands it to BytesConsumingMatcher
+			sel, e := selector.CompileSelector(unixfsnode.UnixFSPathSelectorBuilder("", unixfsnode.MatchUnixFSEntitySelector, false))
+			if e != nil {
+				err = e
+				return
+			}
+			pn, e := loadPlain(ls, fc.Root)
+			if e != nil {
+				err = e
+				return
+			}
+			prog := traversal.Progress{Cfg: &traversal.Config{Ctx: sessionCtx, LinkSystem: *ls, LinkTargetNodePrototypeChooser: protoChooser}}
+			err = prog.WalkMatching(pn, sel, unixfsnode.BytesConsumingMatcher)
+			if err == nil {
+				err = io.EOF // (a walk that ends without error consumed the file to its end: the caller's check treats EOF as "swallowed")
+			}
 			return
 		}
 		var rs io.ReadSeeker
@@ -103,7 +124,7 @@ func TestC12_P_FileFaults(t *testing.T) {
 			ev.Case("single-block", false, "single-block")
 			return
 		}
-		mode := rapid.SampledFrom([]string{"AsBytes", "stream"}).Draw(t, "mode")
+		mode := rapid.SampledFrom([]string{"AsBytes", "stream", "matcher"}).Draw(t, "mode")
 		// first span start per block, in file order
 		firstStart := map[cid.Cid]int64{}
 		for _, n := range all {
@@ -122,7 +143,7 @@ func TestC12_P_FileFaults(t *testing.T) {
 			if fc.St.MissingBare == nil && !isInjected(err) {
 				t.Fatalf("C12 [%s] %s via %s: error %q does not carry the injected load error", fc.Desc, desc, mode, err)
 			}
-			if !bytes.Equal(got, fc.Data[:wantPrefix]) {
+			if mode != "matcher" && !bytes.Equal(got, fc.Data[:wantPrefix]) {
 				t.Fatalf("C12 [%s] %s via %s: delivered %d bytes before the error, want exactly the %d bytes preceding the missing span", fc.Desc, desc, mode, len(got), wantPrefix)
 			}
 			ls := fc.St.LinkSystem()
@@ -137,6 +158,7 @@ func TestC12_P_FileFaults(t *testing.T) {
 			for _, io_ := range []bool{false, true} {
 				fc.St.Missing = map[cid.Cid]bool{c: true}
 				fc.St.MissingIO = io_
+				fc.St.FaultKind = i % len(faultKinds) // (the i/o fault's value: plain, or wrapping io.EOF, fs.ErrNotExist, ...)
 				var node *FileNode
 				for _, n := range all {
 					if n.Cid == c {
@@ -219,7 +241,7 @@ func TestC12_P_FileFaults(t *testing.T) {
 			if err == nil || err == io.EOF || !isInjected(err) {
 				t.Fatalf("C12 [%s] load #%d failing via %s: read ended with err=%v after %d of %d bytes", fc.Desc, k, mode, err, len(got), len(fc.Data))
 			}
-			if want := all[k].Start; !bytes.Equal(got, fc.Data[:want]) {
+			if want := all[k].Start; mode != "matcher" && !bytes.Equal(got, fc.Data[:want]) {
 				t.Fatalf("C12 [%s] load #%d failing via %s: delivered %d bytes, want %d", fc.Desc, k, mode, len(got), want)
 			}
 			ev.Case(fmt.Sprintf("%s d=%d l=%s transient", fc.Writer, fc.Tree.Depth(), bucket(fc.Tree.Leaves())), true, "fault:transient-kth-load", "mode:"+mode)
